@@ -150,6 +150,40 @@ def _run_main(ctx):
             ctx.violate(case, "inferred types differ from the fully annotated graph (Input shape stored in a narrow dtype)",
                         {"site": "infer_types", "what": "types", "edit": "narrow-seed"}, observed=dict(list(bad.items())[:4]))
 
+    # a declared type that is wrong by one on a long axis (and so within any *relative* tolerance of the truth) is a wrong
+    # annotation like any other: inference replaces it by the predecessor's shape, at every size
+    for i in range(ctx.n(30, 120)):
+        big = rng.choice([10 ** 5, 120000, 2 ** 17, 10 ** 6, 2 ** 20 + 1, 2 ** 31, 10 ** 12]) + rng.randrange(0, 3)
+        rank = rng.randrange(1, 4)
+        true = [rng.randrange(1, 4) for _ in range(rank)]
+        ax = rng.randrange(rank); true[ax] = big
+        wrong = list(true); wrong[ax] = big + rng.choice([-1, 1])
+        mid = rng.choice([None, "flatten_noop"])
+        nodes = {"in": nir.Input(np.array(true, dtype="int64"))}
+        edges, want, last = [], {"in": (true, true)}, "in"
+        if mid == "flatten_noop" and rank >= 2:
+            nodes["flat"] = nir.Flatten(None, 0, 0)
+            want["flat"] = (true, true); edges.append((last, "flat")); last = "flat"
+        nodes["out"] = nir.Output(np.array(wrong, dtype=rng.choice(["int64", "int32"]) if big < 2 ** 31 - 1 else "int64"))
+        edges.append((last, "out")); want["out"] = (true, true)
+        case = {"op": "near_miss_long_axis", "true_shape": true, "declared_output": wrong, "nodes": list(nodes),
+                "edges": [list(e) for e in edges]}
+        ctx.case(case); ctx.count("near_miss_long_axis")
+        try:
+            graph = nir.NIRGraph(nodes=nodes, edges=edges)
+            with quiet():
+                graph.infer_types()
+        except Exception as e:  # noqa
+            ctx.violate(case, "infer_types raised on a graph whose only defect is a wrong Output annotation",
+                        {"site": "infer_types", "what": "raised", "edit": "near-miss-long-axis"}, observed=f"{type(e).__name__}: {e}")
+            continue
+        got = types_of(graph)
+        bad = {n: {"got": list(got.get(n, (None, None))), "want": [ti, to]} for n, (ti, to) in want.items()
+               if got.get(n) != ({"input": ti}, {"output": to})}
+        if bad:
+            ctx.violate(case, "a declared type wrong by one on a long axis survives inference",
+                        {"site": "infer_types", "what": "types", "edit": "near-miss-long-axis"}, observed=dict(list(bad.items())[:4]))
+
 
 def run(ctx):
     _run_main(ctx)
